@@ -48,7 +48,14 @@ Keys == << [key |-> "p",  prop |-> "padding",     unitless |-> FALSE, takes |-> 
            [key |-> "m",  prop |-> "margin",      unitless |-> FALSE, takes |-> "num"],
            [key |-> "z",  prop |-> "z-index",     unitless |-> TRUE,  takes |-> "num"],
            [key |-> "lh", prop |-> "line-height", unitless |-> TRUE,  takes |-> "num"],
-           [key |-> "c",  prop |-> "color",       unitless |-> FALSE, takes |-> "col"] >>
+           [key |-> "c",  prop |-> "color",       unitless |-> FALSE, takes |-> "col"],
+           \* the other properties that take bare numbers by default (stylesheet.unitless)
+           [key |-> "op",   prop |-> "opacity",     unitless |-> TRUE, takes |-> "num"],
+           [key |-> "fw",   prop |-> "font-weight", unitless |-> TRUE, takes |-> "num"],
+           [key |-> "zoo",  prop |-> "zoom",        unitless |-> TRUE, takes |-> "num"],
+           [key |-> "fx",   prop |-> "flex",        unitless |-> TRUE, takes |-> "num"],
+           [key |-> "fxg",  prop |-> "flex-grow",   unitless |-> TRUE, takes |-> "num"],
+           [key |-> "fxsh", prop |-> "flex-shrink", unitless |-> TRUE, takes |-> "num"] >>
 
 VARIABLES props
 cvars == <<props, s>>
@@ -72,7 +79,7 @@ Render(ps) == RenderAll(ps, 1)
 Init == props = <<>> /\ s = ""
 LastP == props[Len(props)]
 Allowed(kidx, sidx) == LET sh == Shapes[sidx] t == Keys[kidx].takes IN
-                       IF t = "col" THEN sh.k = "col" ELSE sh.k \in {"num", "kw"}
+                       IF t = "col" THEN sh.k = "col" ELSE sh.k = "num" \/ (sh.k = "kw" /\ kidx <= 5)     \* keys 6.. list no keyword "auto"
 NewProp == /\ Len(props) < MaxProps /\ (props # <<>> => LastP.vals # <<>>)
            /\ \E kx \in KeyIdx : props' = Append(props, [key |-> kx, vals |-> <<>>, imp |-> FALSE])
            /\ s' = Render(props')
